@@ -173,10 +173,17 @@ fn chunkings_for(len: usize, all_cuts: bool) -> Vec<Chunking> {
 /// Targeted violations of the rule list, built bit by bit (the generator knows where HLIT,
 /// NLEN, a code length, a distance symbol ... live).
 pub fn targeted_invalid() -> Vec<(String, Vec<u8>, bool)> {
+    targeted_invalid_padded(None)
+}
+
+/// `pad`: the bytes that follow the violating element. None = the default garbage; Some(0) = all-zero
+/// bits, the most forgiving continuation there is (in a fixed block seven zero bits are the
+/// end-of-block code, so a decoder that wrongly carries on past the violation finishes at once).
+pub fn targeted_invalid_padded(pad_byte: Option<u8>) -> Vec<(String, Vec<u8>, bool)> {
     let mut v: Vec<(String, Vec<u8>, bool)> = vec![];
     let pad = |w: &mut BitWriter| {
         for _ in 0..24 {
-            w.put_byte(0x5a);
+            w.put_byte(pad_byte.unwrap_or(0x5a));
         }
     };
     // reserved block type
@@ -266,7 +273,7 @@ pub fn targeted_invalid() -> Vec<(String, Vec<u8>, bool)> {
             let mut b = RawDyn::new();
             b.header(&spec);
             for _ in 0..24 {
-                b.w.put_byte(0xa5);
+                b.w.put_byte(pad_byte.unwrap_or(0xa5));
             }
             v.push((name.to_string(), b.w.bytes, false));
         };
@@ -336,7 +343,7 @@ pub fn targeted_invalid() -> Vec<(String, Vec<u8>, bool)> {
         b.header(&spec);
         b.w.put_bits(1, 1);
         for _ in 0..24 {
-            b.w.put_byte(0xff);
+            b.w.put_byte(pad_byte.unwrap_or(0xff));
         }
         v.push(("single-litlen-code-undefined-pattern".into(), b.w.bytes, false));
     }
@@ -376,6 +383,40 @@ pub fn targeted_invalid() -> Vec<(String, Vec<u8>, bool)> {
         v.push((format!("zlib-adler-bit{}", bit), d, true));
     }
     v
+}
+
+
+/// Targeted violations placed after 40 000 / 70 000 bytes of valid stored-block output.
+pub fn late_violations(th: bool) -> Vec<(String, Vec<u8>, usize)> {
+    let hist = |n: usize| -> Vec<u8> {
+        let mut l = crate::util::Lcg(0x1234 ^ crate::util::seed());
+        let mut v = vec![];
+        let mut left = n;
+        while left > 0 {
+            let k = left.min(65535);
+            v.push(0u8);
+            v.extend_from_slice(&(k as u16).to_le_bytes());
+            v.extend_from_slice(&(!(k as u16)).to_le_bytes());
+            v.extend((0..k).map(|_| l.byte()));
+            left -= k;
+        }
+        v
+    };
+    let mut late: Vec<(String, Vec<u8>, usize)> = vec![];
+    for n in [40_000usize, 70_000] {
+        let h = hist(n);
+        for pb in [None, Some(0u8)] {
+            for (name, d, zlib) in targeted_invalid_padded(pb) {
+                if zlib || (pb.is_some() && !th && n == 40_000 && !name.starts_with("fixed") && !name.contains("undefined")) {
+                    continue;
+                }
+                let mut c = h.clone();
+                c.extend_from_slice(&d);
+                late.push((format!("{}+{}{}", n, name, if pb.is_some() { "+zeros" } else { "" }), c, n));
+            }
+        }
+    }
+    late
 }
 
 /// Writes a dynamic block header + code lengths without any validity assertion.
@@ -612,13 +653,40 @@ pub fn run(tier: &str) -> i32 {
             }
         }
     }
+    // ---- (3b) the same violations late in a stream -----------------------------------------------
+    // after 40 000 / 70 000 bytes of valid stored-block output (beyond the 32 KiB window and beyond
+    // the largest encodable distance), with garbage and with all-zero continuations, in flat
+    // buffers and rings of 32 KiB and 64 KiB: checks that compare a position with a distance, and
+    // the fast decode loop (plenty of input and room), see different numbers there. The oracle is
+    // the reference verdict on the composite stream in the same memory model (a distance that
+    // reached before the start of a short stream is valid once there is history in front of it).
+    let late = late_violations(th);
+    let accs3b = par_for(late.len(), Acc::default, |i, acc| {
+        watchdog::tick(i as u64, 3);
+        let (name, d, n) = &late[i];
+        let hl = d.len() - 24;
+        for mem in [MemCfg { mode: Mode::Flat, len: n + 70_000 }, MemCfg { mode: Mode::Ring, len: 65536 }, MemCfg { mode: Mode::Ring, len: 32768 }] {
+            for ch in [Chunking::OneCall, Chunking::OneCallMore, Chunking::Cut(n / 2), Chunking::Cut(hl.min(d.len() - 1)), Chunking::Cut(d.len() - 3)] {
+                if let Err((site, what)) = check_one(d, false, mem, ch, Known::Nothing, acc) {
+                    rep.violation(
+                        &format!("C04/{}/late/{}", site, name.split('+').nth(1).unwrap_or("")),
+                        format!("{} :: late violation [{}] {:?} {:?}", what, name, mem, ch),
+                        json!({"input_hex": if d.len() < 3000 { json!(hex(d)) } else { Value::Null }, "late": name, "zlib": false, "mode": format!("{:?}", mem.mode), "buflen": mem.len, "chunking": format!("{:?}", ch), "proper_prefix": false, "base": name}),
+                    );
+                }
+            }
+        }
+    });
+    let late_invalid: u64 = accs3b.iter().map(|a| a.classes.get("invalid-rejected").copied().unwrap_or(0)).sum();
+    rep.set("late_violation_streams", json!(late.len()));
+    rep.set("late_violation_runs_reference_invalid", json!(late_invalid));
     // ---- merge ---------------------------------------------------------------------------------
     let mut evals = acc3.evals;
     let mut classes: BTreeMap<&'static str, u64> = acc3.classes.clone();
     let mut distinct = 0usize;
     let mut prefix_checks = acc3.prefix_checks;
     let mut reasons: BTreeSet<&'static str> = acc3.invalid_reasons.clone();
-    for a in accs1.iter().chain(accs2.iter()) {
+    for a in accs1.iter().chain(accs2.iter()).chain(accs3b.iter()) {
         evals += a.evals;
         for (k, v) in &a.classes {
             *classes.entry(k).or_insert(0) += v;
@@ -657,7 +725,13 @@ pub fn run(tier: &str) -> i32 {
 }
 
 pub fn replay(v: &Value) -> Option<String> {
-    let d = unhex(v["input_hex"].as_str()?);
+    let d = match v["input_hex"].as_str() {
+        Some(h) => unhex(h),
+        None => {
+            let name = v["late"].as_str()?;
+            late_violations(true).into_iter().find(|l| l.0 == name)?.1
+        }
+    };
     let zlib = v["zlib"].as_bool()?;
     let mode = if v["mode"].as_str()? == "Flat" { Mode::Flat } else { Mode::Ring };
     let mem = MemCfg { mode, len: v["buflen"].as_u64()? as usize };
